@@ -5,6 +5,7 @@ import (
 	"context"
 	"encoding/binary"
 	"fmt"
+	"github.com/jackc/pgx/v5/pgtype"
 	"io"
 	"math"
 	"strings"
@@ -309,6 +310,83 @@ func c14Extra(tier string, emit explore.Emit) {
 	}
 }
 
+// c14RunTypeMaps: "each value per its column type" — the type is what the CONNECTION's type map says the column's
+// OID is. Two connections whose type maps bind one OID to different types copy the same 8 bytes, one after the other.
+func c14RunTypeMaps(order []string) explore.Result {
+	var res explore.Result
+	res.Outcome = "split"
+	res.Key = fmt.Sprint("typemaps", order)
+	const privOID = 70001
+	rows := map[string][]string{}
+	parse := func(ctx context.Context, q string) (wire.PreparedStatements, error) {
+		user := wire.AuthenticatedUsername(ctx)
+		if user == "" {
+			user = string(wire.ClientParameters(ctx)["user"])
+		}
+		return wire.Prepared(wire.NewStatement(func(ctx context.Context, w wire.DataWriter, p []wire.Parameter) error {
+			cr, err := w.CopyIn(wire.BinaryFormat)
+			if err != nil {
+				return err
+			}
+			rd, err := wire.NewBinaryColumnReader(ctx, cr)
+			if err != nil {
+				return err
+			}
+			for {
+				row, err := rd.Read(ctx)
+				if err == io.EOF {
+					break
+				}
+				if err != nil {
+					rows[user] = append(rows[user], "error: "+err.Error())
+					return err
+				}
+				rows[user] = append(rows[user], fmt.Sprintf("%T:%v", row[0], row[0]))
+			}
+			return w.Complete("COPY")
+		}, wire.WithColumns(wire.Columns{{Name: "v", Oid: privOID}}))), nil
+	}
+	mw := wire.SessionMiddleware(func(ctx context.Context) (context.Context, error) {
+		var t *pgtype.Type
+		switch string(wire.ClientParameters(ctx)["user"]) {
+		case "as-text":
+			t = &pgtype.Type{Name: "priv_text", OID: privOID, Codec: pgtype.TextCodec{}}
+		case "as-int8":
+			t = &pgtype.Type{Name: "priv_int8", OID: privOID, Codec: pgtype.Int8Codec{}}
+		}
+		if t != nil {
+			wire.TypeMap(ctx).RegisterType(t)
+		}
+		return ctx, nil
+	})
+	srv, err := harness.NewServer(parse, mw)
+	if err != nil {
+		res.Engine = err.Error()
+		return res
+	}
+	defer srv.Stop()
+	val := []byte{0, 0, 1, 0x1f, 0x71, 0xfb, 4, 0xcb} // int8 1234567890123
+	stream := pgproto.Cat(pgproto.BinaryCopyHeader(), pgproto.BinaryCopyTuple([][]byte{val}), pgproto.BinaryCopyTrailer())
+	want := map[string]string{"as-text": "string:" + string(val), "as-int8": "int64:1234567890123"}
+	for i, user := range order {
+		c := srv.Connect()
+		c.Step(pgproto.Startup("user", user))
+		if out, _ := c.Step(pgproto.Query("copy")); harness.Kinds(out) != "TG" {
+			res.Engine = "COPY did not start: " + harness.Kinds(out)
+			return res
+		}
+		before := len(rows[user])
+		out, _ := c.Step(pgproto.Cat(pgproto.CopyData(stream), pgproto.CopyDone()))
+		got := rows[user][before:]
+		if len(got) != 1 || got[0] != want[user] || harness.Kinds(out) != "CZ" {
+			res.Fail("value-decoded-with-another-connections-type", fmt.Sprintf("connection %d of %v (its type map binds OID %d to %s): the row decoded as %q (reply %q), expected %q", i+1, order, privOID, user[3:], got, harness.Kinds(out), want[user]))
+		}
+		c.End()
+	}
+	res.Trans = []string{fmt.Sprintf("server|%d connections with their own type maps|server", len(order))}
+	return res
+}
+
 type c14BigCfg struct{ limit, size, chunk int }
 
 // c14BigValueConfigs: a 200 / 3000-byte text value under a message limit of 64 / 1024 bytes, split into CopyData
@@ -429,6 +507,12 @@ func c14Header(tier string, emit explore.Emit) {
 func c14Enumerate(tier string, emit explore.Emit) {
 	c14Extra(tier, emit)
 	c14Header(tier, emit)
+	for _, order := range [][]string{{"as-text", "as-int8"}, {"as-int8", "as-text"}, {"as-text", "as-int8", "as-text"}, {"as-int8", "as-int8", "as-text", "as-int8"}} {
+		order := order
+		emit(explore.Case{Family: "per-connection-types", Size: len(order),
+			Desc: func() any { return map[string]any{"sequential_connections_binding_one_oid_to": order} },
+			Run:  func() explore.Result { return c14RunTypeMaps(order) }})
+	}
 	for _, table := range c14Tables(tier) {
 		nc := len(table)
 		for rows := 0; rows <= 2; rows++ {
